@@ -112,8 +112,8 @@ def fresh_parser_every(fam, n=20000):
 def math_graders(debug):
     A = MathArray([[1.0, 2.0], [3.0, 5.0]])
     return {
-        'Formula': FormulaGrader(answers='x+1', variables=['x'], user_functions={'f': lambda t: t * t - 3}, debug=debug,
-                                 sample_from={'x': [2, 3]}, samples=2),
+        'Formula': FormulaGrader(answers='x+1', variables=['x', 'n'], user_functions={'f': lambda t: t * t - 3}, debug=debug,
+                                 sample_from={'x': [2, 3], 'n': DiscreteSet((7,))}, user_constants={'m': 6}, samples=2),
         'Numerical': NumericalGrader(answers='2.5', debug=debug),
         'Matrix': MatrixGrader(answers='[1,2]', variables=['x', 'A'], sample_from={'A': DiscreteSet(A)}, max_array_dim=2,
                                user_functions={'f': lambda t: t * t - 3}, debug=debug, samples=2),
@@ -401,6 +401,12 @@ ANTICIPATED = [
     ('Formula', '10^400', 'overflow', ('CalcOverflowError',)),
     ('Formula', '2^2^2^2^2', 'overflow', ('CalcOverflowError',)),
     ('Formula', 'exp(1000)', 'overflow in function', ('CalcOverflowError',)),
+    # towers built only from INTEGER-valued variables / constants (n is drawn from an integer set, m = 6)
+    ('Formula', 'n^n^n', 'overflow in an integer-valued power tower', ('CalcOverflowError',)),
+    ('Formula', 'm^m^m', 'overflow in an integer-valued power tower', ('CalcOverflowError',)),
+    ('Formula', 'n^n^n^n', 'overflow in an integer-valued power tower', ('CalcOverflowError',)),
+    ('Formula', 'm^n^m^n', 'overflow in an integer-valued power tower', ('CalcOverflowError',)),
+    ('Formula', 'n^m^n^m^n', 'overflow in an integer-valued power tower', ('CalcOverflowError',)),
     ('Formula', 'sin(1,2)', 'wrong number of arguments', ('ArgumentError',)),
     ('Formula', 'arctan2(1)', 'wrong number of arguments', ('ArgumentError',)),
     ('Formula', 'f(1,2)', 'wrong number of arguments (user function)', ('ArgumentError',)),
@@ -433,6 +439,8 @@ ANTICIPATED = [
 
 class Anticipated(Family):
     name = 'anticipated_problems'
+    timeout = 15.0
+    timeout_sig = 'non-termination'
     rule = ('a table of %d documented, anticipated student mistakes (malformed / unbalanced formulas, unknown names, division by zero, '
             'overflow, wrong arity, function domain, shape-illegal array arithmetic incl. non-integer and COMPLEX matrix powers, wrong '
             'answer shape) submitted with debug off: each must surface as its specific documented error class with a message free of '
